@@ -71,6 +71,9 @@ mod imp {
                     }
                 }
             }
+            // a second root with the SAME subject name as `ca` but another key (what a CA key roll-over looks like)
+            assert!(run(openssl().args(["req", "-x509"]).args(ec).args(["-keyout", &p("cadecoy.key"), "-out", &p("cadecoy.pem"), "-days", "3650", "-subj", "/CN=Verif ca Root",
+                "-addext", "basicConstraints=critical,CA:TRUE", "-addext", "keyUsage=critical,keyCertSign,cRLSign"])), "openssl decoy CA");
             assert!(run(openssl().args(["req"]).args(ec).args(["-keyout", &p("srv.key"), "-out", &p("srv.csr"), "-subj", "/CN=localhost"])), "openssl csr");
             assert!(run(openssl().args(["pkcs8", "-topk8", "-nocrypt", "-in", &p("srv.key"), "-outform", "DER", "-out", &p("srv.key.der")])));
             let ext = |name: &str, san: &str| {
@@ -189,12 +192,15 @@ mod imp {
         let dir = pki().clone();
         let (port, app, stop, handle) = tls_server(&dir, &cert);
         let uri: Uri = format!("{}://{}:{}/ipp/print", if scheme == "https" { "https" } else { "ipps" }, if host_kind == "ip" { "127.0.0.1" } else { "localhost" }, port).parse().unwrap();
-        let root_data: Option<Vec<u8>> = match root.as_str() {
-            "none" => None,
-            "pem" => Some(std::fs::read(dir.join("ca.pem")).unwrap()),
-            "der" => Some(std::fs::read(dir.join("ca.der")).unwrap()),
-            "unrelated" => Some(std::fs::read(dir.join("ca3.pem")).unwrap()),
-            _ => None,
+        // the `ca_cert` calls made on the builder, in order
+        let rd = |n: &str| std::fs::read(dir.join(n)).unwrap();
+        let root_data: Vec<Vec<u8>> = match root.as_str() {
+            "pem" => vec![rd("ca.pem")],
+            "der" => vec![rd("ca.der")],
+            "unrelated" => vec![rd("ca3.pem")],
+            "decoyfirst" => vec![rd("cadecoy.pem"), rd("ca.pem")],
+            "decoylast" => vec![rd("ca.pem"), rd("cadecoy.pem")],
+            _ => vec![],
         };
         let req = IppRequestResponse::new(IppVersion::v1_1(), Operation::GetPrinterAttributes, Some(uri.clone()));
         macro_rules! configure {
@@ -203,7 +209,7 @@ mod imp {
                 for flag in &calls {
                     b = b.ignore_tls_errors(*flag);
                 }
-                if let Some(d) = &root_data {
+                for d in &root_data {
                     b = b.ca_cert(d);
                 }
                 b.build()
@@ -222,7 +228,7 @@ mod imp {
         let bytes = app.load(Ordering::SeqCst);
         // the caller opted out exactly when the most recent call of the setter said true
         let opted_out = calls.last() == Some(&true);
-        let should = opted_out || (cert == "valid" && (root == "pem" || root == "der"));
+        let should = opted_out || (cert == "valid" && matches!(root.as_str(), "pem" | "der" | "decoyfirst" | "decoylast"));
         let mut oracle = None;
         if accepted != should {
             oracle = Some(format!(
